@@ -15,4 +15,4 @@ Definition vertex_value_f (beta : cplx) (chi : cplx) (g13 g24 g14 g23 : cplx) (n
   vertex_value cplx cadd csub cmul beta (fun _ _ _ => chi) (fun _ => g13) (fun _ => g24)
                (fun _ => g14) (fun _ => g23) n1 n2 n3.
 
-Extraction "C15_model.ml" probe window_cells vertex_value_f.
+Extraction "C15_model.ml" probe probe_seq window_cells vertex_value_f.
